@@ -20,6 +20,7 @@ type ExploreCfg struct {
 	TimeoutMs int
 	MaxPaths  int
 	MapPerm   bool
+	MapRev    bool
 	Twice     bool
 	Deadline  time.Time
 }
@@ -120,6 +121,7 @@ func (p *Program) Explore(entry *ssa.Function, cfg ExploreCfg) *EntryReport {
 			}
 			m := p.newMachine(sol, task)
 			m.mapPerm = cfg.MapPerm
+			m.mapRev = cfg.MapRev
 			m.twice = cfg.Twice
 			res := m.runPath(entry, rep, &mu)
 
